@@ -6,7 +6,7 @@ import vt
 
 class FeedServer(threading.Thread):
     """Executes a plan of steps against the (single) client connection:
-       ("send", bytes) ("sleep", seconds) ("close",) ("accept", timeout) ("mark", label)
+       ("send", bytes) ("sleep", seconds) ("close",) ("reset",) ("accept", timeout) ("mark", label)
     and records what it did with timestamps."""
 
     def __init__(self, plan, accept_timeout=20.0):
@@ -74,6 +74,16 @@ class FeedServer(threading.Thread):
                     self.conn.close()
                     self.conn = None
                     self.log.append((time.monotonic(), "closed", None))
+                elif kind == "reset":
+                    # abortive close: the client sees a connection reset (RST), not an orderly end
+                    import struct
+                    try:
+                        self.conn.setsockopt(socket.SOL_SOCKET, socket.SO_LINGER, struct.pack("ii", 1, 0))
+                    except OSError:
+                        pass
+                    self.conn.close()
+                    self.conn = None
+                    self.log.append((time.monotonic(), "closed", "reset"))
                 elif kind == "accept":
                     if not self._accept(step[1]):
                         break
